@@ -82,4 +82,18 @@ def stepG (refused : Bool) (c : Cfg) (s : St) (e : Ev) : St :=
 
 def runG (refused : Bool) (c : Cfg) (s : St) (evs : List Ev) : St := evs.foldl (stepG refused c) s
 
+/-- the directories `Fork.vdrAcrossSymlink` lstats, as a function of the fork: the node's
+directory and those of the pipelines above it (`nodeDirs`), the fork directory, and for
+every job directory of the fork the directory itself, its files/ and its tmp/ -/
+def guardChain (nodeDirs : List Path) (forkDir : Path) (jobDirs : List Path) : List Path :=
+  nodeDirs ++ forkDir :: jobDirs.flatMap fun j => [j, j ++ "/files".toList, j ++ "/tmp".toList]
+
+/-- the shape of the file system the dichotomy needs: every link is one of the guarded
+directories, or lies below the walk's root, or is elsewhere — neither the root or above it
+nor (lexically) below it, like mrp's own `chnk0 -> chnk0-u…` links (decidable; evaluated by
+the driver on the independently lstat'ed directory trees of real runs) -/
+def hfsB (fs : List FsEnt) (chain : List Path) (root : Path) (t : FsTree) : Bool :=
+  fs.all fun e => e.link.isNone || chain.contains e.path || (entsBelow root t).contains e ||
+    (!pathIsInside root e.path && !pathIsInside e.path root)
+
 end Martian.Vdr
